@@ -3,7 +3,7 @@
     sumbool, sumor map to their OCaml counterparts; N, Z, positive, nat,
     string and ascii stay the extracted Coq datatypes. *)
 From Coq Require Import Extraction ExtrOcamlBasic.
-From MP4 Require Import Types IsoTables.
+From MP4 Require Import Types IsoTables Track Writer SampleTable IsoFile.
 From MP4 Require Tables.
 
 Extraction Language OCaml.
@@ -20,5 +20,13 @@ Extraction "model.ml"
   Tables.boxtype_table
   (* IsoTables.v *)
   iso_boxtype_table iso_box_types iso_audio_object_types iso_sample_freq iso_channel_config
-  iso_data_type iso_avc_profile iso_handlers iso_media cc.
+  iso_data_type iso_avc_profile iso_handlers iso_media cc
+  (* Track.v / SampleTable.v *)
+  sample_count sample_size sample_offset sample_time sample_rendering_offset is_sync_sample read_sample
+  consistent derive_first_samples spec_offset spec_size spec_delta spec_start spec_cts spec_sync
+  run stream_at runm meter0
+  (* Writer.v *)
+  run_mux mw_write_start run_ops mw_write_end
+  (* IsoFile.v *)
+  iso_file iso_check_file.
 Cd "../../coq".
